@@ -8,6 +8,12 @@ from .. import common, sched, schedsim
 def warm():
     common.import_repo()
     import conductor.__main__  # noqa: F401  (imported once; every case forks from here)
+    try:  # lazily imported by Context(); heavy (grpc, fabric) - import once before forking
+        import conductor.envs.manager_impl  # noqa: F401
+    except ImportError:
+        pass
+    import concurrent.futures.thread  # noqa: F401
+    import sqlite3  # noqa: F401
 
 
 def run(prop, tier, level, rule, plan, required, n_override=None, extra_cases=None, assumptions=()):
